@@ -102,6 +102,34 @@ theorem flat_roundtrip (vs : List Value) (hvs : ∀ v ∈ vs, v.WF) :
         d.filler = .ok () d' ∧ d'.pos = d'.buf.length ∧ d'.used = 0 :=
   flat_roundtrip_from Enc.new Enc.inv_new vs hvs
 
+/-- `flat::decode(&flat::encode(&v)) = Ok(v)` for the top-level functions of `mod.rs` -/
+theorem encode_decode_top (v : Value) (hv : v.WF) :
+    ∃ bytes d, encodeTop v = some bytes ∧ decodeTop v.kind bytes = .ok v d ∧ d.pos = bytes.length ∧ d.used = 0 := by
+  obtain ⟨e, he, d, d', hd, hf, hp, hu⟩ := flat_roundtrip [v] (by simpa using hv)
+  simp only [Enc.seq] at he
+  cases hev : Enc.new.value v with
+  | ok e1 =>
+    rw [hev] at he
+    simp only [ERes.ok.injEq] at he
+    subst he
+    simp only [List.map_cons, List.map_nil, Dec.seq] at hd
+    cases hdv : (Dec.new e1.filler.buf).value v.kind with
+    | ok v' d1 =>
+      rw [hdv] at hd
+      simp only [Res.ok.injEq, List.cons.injEq, and_true] at hd
+      obtain ⟨rfl, rfl⟩ := hd
+      have hbuf : d'.buf = e1.filler.buf := by
+        have h1 := Dec.value_safe (Dec.new e1.filler.buf) (Dec.inv_new _) v'.kind
+        rw [hdv] at h1
+        have h2 := Dec.filler_safe d1 h1.2.1
+        rw [hf] at h2
+        rw [h2.1, h1.1]; rfl
+      refine ⟨e1.filler.buf, d', by simp [encodeTop, hev], by simp [decodeTop, hdv, hf], by rw [hp, hbuf], hu⟩
+    | err e d1 => rw [hdv] at hd; simp at hd
+    | panic => rw [hdv] at hd; simp at hd
+  | err => rw [hev] at he; simp at he
+  | panic => rw [hev] at he; simp at he
+
 /-- the encoder never fails or panics on well-formed values (needed for the statement above not to
     be vacuous on the Rust side: `Result`s are `Ok`, no shift traps) -/
 theorem enc_total (e0 : Enc) (h0 : e0.Inv) (vs : List Value) (hvs : ∀ v ∈ vs, v.WF) :
